@@ -60,13 +60,100 @@ def shards(tier, seed):
     for sh in su.chunk_cases(pids, seed, per_level_chunks={0: 1, 1: 24}):
         sh["part"] = "C"
         out.append(sh)
+    for i in range(len(C3_PROBLEMS)):
+        out.append({"level": 1, "part": "C3", "problem": i})
     out.sort(key=lambda s: s["level"])
     return out
+
+
+# part C3: three-stage pipelines on problems whose FIRST stage adds features (an object fluent
+# assigned from a parameter -> conditional effects, equalities, ...; quantifiers -> disjunctions)
+# with later stages that may not support them (timed-to-sequential, durative-actions-to-processes)
+C3_PROBLEMS = ["object-fluent+durative", "object-fluent+quantifier+durative", "object-fluent"]
+
+
+def _c3_problem(i):
+    import unified_planning as up
+    from collections import OrderedDict
+    from unified_planning.model.timing import StartTiming, EndTiming
+    from mc.gen.spec import fresh_env
+
+    env = fresh_env()
+    tm, em = env.type_manager, env.expression_manager
+    T = tm.UserType("T")
+    pos = up.model.Fluent("pos", T, None, env)
+    ok = up.model.Fluent("ok", tm.BoolType(), OrderedDict(a=T), env)
+    done = up.model.Fluent("done", tm.BoolType(), None, env)
+    P = up.model.Problem("c3", env)
+    o1, o2 = up.model.Object("o1", T, env), up.model.Object("o2", T, env)
+    P.add_objects([o1, o2])
+    P.add_fluent(pos, default_initial_value=o1)
+    P.add_fluent(ok, default_initial_value=True)
+    P.add_fluent(done, default_initial_value=False)
+    name = C3_PROBLEMS[i]
+    if "durative" in name:
+        a = up.model.DurativeAction("go", OrderedDict(x=T), env)
+        a.set_fixed_duration(2)
+        x = a.parameter("x")
+        cond = em.FluentExp(ok, (em.FluentExp(pos),))
+        if "quantifier" in name:
+            v = up.model.Variable("v", T, env)
+            cond = em.And(cond, em.Exists(em.FluentExp(ok, (em.VariableExp(v),)), v))
+        a.add_condition(StartTiming(), cond)
+        a.add_effect(EndTiming(), pos, x)
+        a.add_effect(EndTiming(), done, True)
+    else:
+        a = up.model.InstantaneousAction("go", OrderedDict(x=T), env)
+        a.add_precondition(em.FluentExp(ok, (em.FluentExp(pos),)))
+        a.add_effect(pos, a.parameter("x"))
+        a.add_effect(done, True)
+    P.add_action(a)
+    P.add_goal(em.FluentExp(done))
+    return P
+
+
+def part_c3(i, acc):
+    from unified_planning.engines import CompilationKind as CK
+    from unified_planning.exceptions import UPNoSuitableEngineAvailableException, UPUsageError
+
+    cks = [CK.USERTYPE_FLUENTS_REMOVING, CK.QUANTIFIERS_REMOVING, CK.NEGATIVE_CONDITIONS_REMOVING, CK.DISJUNCTIVE_CONDITIONS_REMOVING,
+           CK.GROUNDING, CK.TIMED_TO_SEQUENTIAL, CK.DURATIVE_ACTIONS_TO_PROCESSES, CK.CONDITIONAL_EFFECTS_REMOVING]
+    lab = "c3:" + C3_PROBLEMS[i]
+    for seq in permutations(cks, 3):
+        prob = _c3_problem(i)
+        acc.count("evaluations")
+        try:
+            comp = prob.environment.factory.Compiler(problem_kind=prob.kind, compilation_kinds=list(seq))
+        except UPNoSuitableEngineAvailableException:
+            acc.count("skipped_no_pipeline")
+            continue
+        except Exception as e:
+            acc.violation("factory-raises:%s:%s|%s" % (type(e).__name__, ">".join(c.name for c in seq), lab),
+                          "Factory.Compiler raised %s: %s" % (type(e).__name__, str(e)[:120]), {"part": "C3", "problem": i})
+            continue
+        try:
+            comp.compile(prob)
+            acc.count("nontrivial")
+            acc.outcome("pipeline3-ok")
+        except UPUsageError as e:
+            msg = str(e)
+            if "cannot handle this kind" in msg or "cannot establish whether" in msg:
+                acc.violation("pipeline-stage-rejects-intermediate:%s|%s" % (">".join(c.name for c in seq), lab),
+                              "the pipeline the factory built for this problem kind fails on an intermediate problem: %s" % msg[:120],
+                              {"part": "C3", "problem": i})
+            else:
+                acc.count("skipped_compile_raises")
+        except Exception:
+            acc.count("skipped_compile_raises")
+            acc.outcome("pipeline-stage-raises")
 
 
 def run_shard(shard, tier, seed):
     acc = Acc()
     part = shard["part"]
+    if part == "C3":
+        part_c3(shard["problem"], acc)
+        return acc
     if part in ("A", "T"):
         key = shard["compiler"]
         for cid in shard["cids"]:
@@ -86,6 +173,8 @@ def replay(case):
         part_a(case["compiler"], tuple(tuple(x) for x in case["cid"]), case["part"], acc)
     elif case["part"] == "B":
         part_b(case["compiler"], case.get("m", 2), acc)
+    elif case["part"] == "C3":
+        part_c3(case["problem"], acc)
     else:
         part_c(tuple(tuple(x) for x in case["cid"]), case.get("n", 2), acc)
     return [(fp, e["cases"][0]["what"]) for fp, e in acc.viol.items()]
@@ -129,6 +218,22 @@ def part_a(key, cid, part, acc):
         acc.count("skipped_compile_raises")
         return
     got = res.problem.kind
+    # resulting_problem_kind is a function of its arguments: asking ANY compiler about this kind
+    # (grounder and trajectory-constraints remover share code) must not change a later answer
+    try:
+        for k2 in ("grounder", "tcrm", key):
+            C2, ck2 = c08._get(k2)
+            C2.resulting_problem_kind(kind, ck2)
+        again = Cls.resulting_problem_kind(kind, ck)
+        if set(again.features) != set(declared.features) or set(kind.features) != set(prob.kind.features):
+            acc.violation(
+                "resulting-kind-unstable:%s|any-input" % key,
+                "resulting_problem_kind(%s) answered %s, and after other resulting_problem_kind calls on the same kind %s" % (lab, sorted(declared.features ^ again.features), "differs by these features"),
+                case,
+            )
+            return
+    except Exception:
+        pass
     if got.features != kind.features:
         acc.count("nontrivial")
     acc.outcome("%s:%s" % (key, "changed" if got.features != kind.features else "same"))
